@@ -64,15 +64,15 @@ def confirm(ob_, cex):
 
 def obligations(tier):
     obs = [kernels.e1("C07", "barrier_kernel", "barrier_kernel", timeout=300)]
-    for did, steps in [("D04", 5), ("D05", 7), ("D05a", 6), ("D05b", 6), ("D12", 7)]:
+    for did, steps in [("D04", 5), ("D05", 7), ("D05a", 6), ("D05b", 6), ("D12", 7), ("D11j", 6)]:
         o = ob("C07", "e2c." + did, "vt.harness.C07:joins", {"did": did, "steps": steps}, timeout=900)
-        o["antecedents"] = ["c07_join_started"]
+        o["antecedents"] = ["c07_join_started"] if did != "D11j" else ["c07_unreachable"]
         obs.append(o)
     for need in (1, 2, 3, "all"):
         o = ob("C07", "e2c.J%s" % need, "vt.harness.C07:joins", {"need": need, "steps": 6, "statuses": ["succeeded"]}, timeout=900)
         o["antecedents"] = ["c07_join_started"]
         obs.append(o)
-    o = ob("C07", "e2c.pause.D12", "vt.harness.C07:joins", {"did": "D12", "steps": 6, "control": "pause"}, timeout=900)
+    o = ob("C07", "e2c.pause.D12", "vt.harness.C07:joins", {"did": "D12", "steps": 6, "control": "pause", "resume_verbs": True}, timeout=900)
     o["antecedents"] = ["c07_unreachable"]
     obs.append(o)
     obs.append(ob("C07", "twin.D04", "vt.harness.C07:joins", {"did": "D04", "steps": 5, "twin": True}, timeout=60))
